@@ -1,6 +1,7 @@
 import FGVerif.Proofs.C15
 import FGVerif.Proofs.C15General
 import FGVerif.Proofs.C15Halves
+import FGVerif.Proofs.C15Rc
 #print axioms C15.balanced_mapped
 #print axioms C15.balanced_mapped_of
 #print axioms C15.reaction_nodes_eq
@@ -25,3 +26,23 @@ import FGVerif.Proofs.C15Halves
 #print axioms C15.halfSpec_pair_G
 #print axioms C15.halfSpec_pair_H
 #print axioms C15.halvesB_reaction
+#print axioms C15.daCycleB_sound
+#print axioms C15.rc_step
+#print axioms C15.labels_ren
+#print axioms C15.dacycle_step
+#print axioms C15.good_step
+#print axioms C15.front_preserved
+#print axioms C15.dacycle_finish
+#print axioms C15.rc_shape_general
+#print axioms C15.da_pos_listed
+#print axioms C15.da_pos_safe
+#print axioms C15.da_pos_hyp
+#print axioms C15.da_pos_front
+#print axioms C15.da_pos_total
+#print axioms C15.da_neg_listed
+#print axioms C15.da_neg_safe
+#print axioms C15.da_neg_hyp
+#print axioms C15.da_neg_front
+#print axioms C15.da_neg_total
+#print axioms C15.da_rc_shape_thm
+#print axioms C15.da_rc_shape_all
